@@ -274,6 +274,7 @@ def gen_structure(r, kind, n):
                 E += [(u, v)] * r.range(1, 4)
     elif kind == "lollipop":
         k = min(max(3, n // 3), 20)
+        n = max(n, k)
         E = [(u, v) for u in range(k) for v in range(u + 1, k)]
         for v in range(k, n):
             E.append((v - 1, v))
